@@ -473,14 +473,15 @@ class Summaries:
         return out
 
 
-_SUMM: dict[int, Summaries] = {}
+_SUMM: dict = {}
 
 
 def summaries(prog: Program) -> Summaries:
-    s = _SUMM.get(id(prog))
-    if s is None:
-        s = Summaries(prog)
-        _SUMM[id(prog)] = s
+    hit = _SUMM.get(id(prog))
+    if hit is not None and hit[0] is prog:
+        return hit[1]
+    s = Summaries(prog)
+    _SUMM[id(prog)] = (prog, s)
     return s
 
 
@@ -646,11 +647,11 @@ def module_const_env(prog: Program, mod) -> dict:
                 continue
             if other is mod:
                 continue
-            oenv = _MODENV.get((id(prog), other.name))
+            oenv = _MODENV.get((prog.uid, other.name))
             if oenv is None:
-                _MODENV[(id(prog), other.name)] = {}
+                _MODENV[(prog.uid, other.name)] = {}
                 oenv = module_const_env(prog, other)
-                _MODENV[(id(prog), other.name)] = oenv
+                _MODENV[(prog.uid, other.name)] = oenv
             if imp[2] in oenv:
                 env[local] = oenv[imp[2]]
     return env
